@@ -510,6 +510,110 @@ def arbiter_layer(ctx):
     ctx.log("arbiter layer: %d histories of the real Arbiter with a pid file; %d failures" % (2 * len(ARBITER_HISTORIES), nbad))
 
 
+def syscall_crash_probe(bare, stale, other_tmp):
+    """The REAL Pidfile.create() in a child process that dies immediately before its k-th call into the operating system (any
+    built-in of posix / io, whichever module of the standard library makes it), for k = 1, 2, ... until a child survives: after
+    each death the pid file is what it was before (absent / the stale file) or complete - never anything else.  `bare`: the
+    pid file is named without a directory (relative to the working directory); `other_tmp`: $TMPDIR is on another filesystem
+    than the working directory (when the machine has two)."""
+    import shutil as _sh
+    import tempfile as _tf
+    base = vlib.VERIF / ".build" / "scratch"
+    base.mkdir(parents=True, exist_ok=True)
+    wd = _tf.mkdtemp(prefix="c17-sys-", dir=str(base))
+    tmpd = None
+    out = {"bare": bare, "stale": stale, "other_tmp": False, "deaths": [], "calls": None}
+    try:
+        if other_tmp and os.path.isdir("/dev/shm") and os.stat("/dev/shm").st_dev != os.stat(wd).st_dev:
+            tmpd = _tf.mkdtemp(prefix="gv-c17-", dir="/dev/shm")
+            out["other_tmp"] = True
+        name = "app.pid" if bare else os.path.join(wd, "app.pid")
+        full = os.path.join(wd, "app.pid")
+        # a pid that names no process: a child that has been reaped
+        dead = os.fork()
+        if dead == 0:
+            os._exit(0)
+        os.waitpid(dead, 0)
+        prev = ("%d\n" % dead).encode() if stale else None
+        for k in range(1, 400):
+            for f in os.listdir(wd):
+                os.unlink(os.path.join(wd, f))
+            if prev is not None:
+                with open(full, "wb") as fh:
+                    fh.write(prev)
+            pid = os.fork()
+            if pid == 0:
+                try:
+                    os.chdir(wd)
+                    if tmpd:
+                        os.environ["TMPDIR"] = tmpd
+                    _tf.tempdir = None
+                    from gunicorn.pidfile import Pidfile
+                    pf = Pidfile(name)
+                    n = [0]
+
+                    def prof(frame, event, arg):
+                        if event == "c_call" and getattr(arg, "__module__", None) in ("posix", "io", "_io"):
+                            n[0] += 1
+                            if n[0] == k:
+                                os._exit(77)
+                    sys.setprofile(prof)
+                    pf.create(4242)
+                    sys.setprofile(None)
+                    os._exit(0)
+                except BaseException:
+                    os._exit(3)
+            _, st = os.waitpid(pid, 0)
+            code = os.waitstatus_to_exitcode(st)
+            try:
+                with open(full, "rb") as fh:
+                    content = fh.read()
+            except FileNotFoundError:
+                content = None
+            if code == 0:
+                out["calls"] = k - 1
+                out["final"] = None if content is None else content.decode("latin-1")
+                break
+            if code != 77:
+                out["error"] = "the child ended with status %r at k=%d" % (code, k)
+                break
+            if content not in (prev, b"4242\n"):
+                out["deaths"].append({"before_call": k, "pid_file": None if content is None else content.decode("latin-1")})
+    finally:
+        _sh.rmtree(wd, ignore_errors=True)
+        if tmpd:
+            _sh.rmtree(tmpd, ignore_errors=True)
+    return out
+
+
+def syscall_crash_layer(ctx):
+    nbad = 0
+    for bare in (False, True):
+        for stale in (False, True):
+            for other in (False, True):
+                res = syscall_crash_probe(bare, stale, other)
+                ctx.count_case(("syscall-crash", bare, stale, other), True)
+                ctx.hist("syscall_crash", "%s name, %s, TMPDIR %s" % ("bare" if bare else "absolute", "stale file" if stale else "no file",
+                                                                      "elsewhere" if res["other_tmp"] else "same filesystem"))
+                ctx.extra.setdefault("syscall_crash", []).append(res)
+                if "error" in res:
+                    ctx.broken.append("syscall crash probe %r could not be carried out: %s" % ((bare, stale, other), res["error"]))
+                elif res["calls"] is None:
+                    ctx.broken.append("syscall crash probe %r: create() makes more than 400 system calls" % ((bare, stale, other),))
+                elif res.get("final") != "4242\n":
+                    nbad += 1
+                    ctx.violation("Pidfile.create() returned and the pid file holds %r, not the pid" % (res.get("final"),),
+                                  {"kind": "syscall-crash", "args": [bare, stale, other]})
+                for d in res["deaths"][:1]:
+                    nbad += 1
+                    ctx.violation("a master that dies immediately before the %d-th system call of Pidfile.create() (%s pid file name, %s, "
+                                  "$TMPDIR on %s) leaves the pid file as %r: neither what was there before nor the complete new content"
+                                  % (d["before_call"], "bare" if bare else "absolute", "stale file present" if stale else "first start",
+                                     "another filesystem" if res["other_tmp"] else "the same filesystem", d["pid_file"]),
+                                  {"kind": "syscall-crash", "args": [bare, stale, other]})
+    ctx.log("syscall crash layer: 8 configurations of the real Pidfile.create(), death before every system call; %d failures" % nbad)
+
+
 def run(ctx):
     ok = ctx.build()
     n_random = 2000 if ctx.quick() else 50000
@@ -549,6 +653,7 @@ def run(ctx):
         if len(ctx.violations) >= break_after:
             break
     arbiter_layer(ctx)
+    syscall_crash_layer(ctx)
     # step 3: model vs implementation
     bad = ctx.correspond("hist", HEADER, cases, shard=300)
     if bad:
@@ -602,6 +707,10 @@ def search(ctx, seeds):
 
 
 def replay(rep):
+    if rep.get("kind") == "syscall-crash":
+        res = syscall_crash_probe(*rep["args"])
+        print(res)
+        return 1 if (res["deaths"] or res.get("final") != "4242\n") else 0
     if rep.get("kind") == "arbiter-pidfile":
         from props import c14
         u = c14.run_history(rep["cfg"], rep["real"], [tuple(e) for e in rep["events"]])
